@@ -236,4 +236,6 @@ class ZeroLinearOperator(LinearOperator):
             shape = torch.broadcast_shapes(self.shape, other.shape)
             if shape != other.shape:
                 other = other.expand(*shape)
-        return other
+            return other
+        # python scalars etc. are handled (or refused) like for any other operator
+        return super().__add__(other)
